@@ -96,7 +96,8 @@ StatusTotal ==
     LET a == S.aut IN
     /\ Statuses(a) # {}
     /\ (a.q = "exact" /\ ~Undecided(a) => Cardinality(Statuses(a)) = 1)
-    /\ ("more" \in Statuses(a) /\ ~Undecided(a) => Unfinished(a))
+    /\ ("more" \in Statuses(a) /\ ~Undecided(a) => Unfinished(a) \/ PrefixPending(a))
+    /\ (ErrorIsFinal(a) => "more" \in Statuses(a))
 
 HistDomain == S.hist \in {"fresh", "done", "err", "abandoned", "queued"}
 =============================================================================
